@@ -15,12 +15,12 @@ VIEW View
 """
 
 
-def cfg(nkeys, nvals, leaf, internal, spec='Spec', invariants=(), props=(), dump=False, dev=()):
+def cfg(nkeys, nvals, leaf, internal, spec='Spec', invariants=(), props=(), dump=False, dev=(), firstkey=1):
     extra = ''.join('INVARIANT %s\n' % i for i in invariants)
     extra += ''.join('PROPERTY %s\n' % p for p in props)
     if dump:
         extra += 'ACTION_CONSTRAINT Dump\n'
-    return CFG % dict(spec=spec, keys=','.join(str(i) for i in range(1, nkeys + 1)),
+    return CFG % dict(spec=spec, keys=','.join(str(i) for i in range(firstkey, firstkey + nkeys)),
                       vals=','.join(str(i) for i in range(1, nvals + 1)), leaf=leaf,
                       internal=internal, extra=extra, dev=','.join('"%s"' % d for d in dev))
 
